@@ -338,7 +338,9 @@ def rule_tx_conn(ctx, R):
     pnc = SERVER + "process_normal_command"
     for fn in sorted(reach):
         b = ctx.prog.bodies.get(fn)
-        if b is None or not fn.startswith(SERVER) or b.kind == "Closure":
+        if b is None or not fn.startswith(SERVER):
+            continue
+        if b.kind == "Closure" and not (b.encl and b.encl in reach and b.encl != PF):
             continue
         for i, t in b.calls():
             if callee(t) != pnc:
@@ -348,7 +350,16 @@ def rule_tx_conn(ctx, R):
             n += 1
             # conn_id is the last parameter of process_normal_command
             a = t["a"][-1]
-            const = op_is_const(a) or not prov.operand_origins(b, a).params()
+            const = op_is_const(a)
+            if not const:
+                P = prov.operand_origins(b, a)
+                ok_src = bool(P.params() - ({1} if b.kind == "Closure" else set()))
+                for r in P.roots:
+                    if r[0] == "upvar":
+                        co = shared.capture_operand(ctx, b, r)
+                        if co and not op_is_const(co[1]) and prov.operand_origins(co[0], co[1]).params():
+                            ok_src = True
+                const = not ok_src
             R.inst(fn, "redispatch-conn-id", {"function": fn, "at": b.loc(i), "conn_id_is_constant": bool(const)})
             if const:
                 R.finding(fn, "redispatch-conn-id:constant",
